@@ -261,6 +261,31 @@ func Gen(t *rapid.T, used map[string]bool, from string, to string, big int) Spec
 		name = strings.ReplaceAll(name, "/", "_")
 		s.Files = append(s.Files, FileSpec{Name: name, Data: data})
 	}
+	// a zero-padded attachment whose marker bytes sit at chosen offsets of the SERIALISED message modulo the 2048
+	// byte LZHUF window (the places where the codec's ring buffer wraps and where its look-ahead ends)
+	if big >= 3000 && rapid.IntRange(0, 9).Draw(t, "sparse_file") == 0 {
+		n := rapid.IntRange(2200, minInt(big, 9000)).Draw(t, "sparse_n")
+		fill := rapid.SampledFrom([]byte{0, 0, ' '}).Draw(t, "sparse_fill")
+		r := rapid.SampledFrom([]int{117, 118, 119, 59, 60, 61, 0, 1, 2047}).Draw(t, "sparse_residue")
+		two := rapid.Bool().Draw(t, "sparse_two")
+		s.Files = append(s.Files, FileSpec{Name: "padded.bin", Data: make([]byte, n)})
+		if m, err := s.Build(); err == nil {
+			if ser, err := m.Bytes(); err == nil {
+				off := len(ser) - 2 - n // the last file is followed by CRLF only
+				data := make([]byte, n)
+				for i := range data {
+					data[i] = fill
+				}
+				for i := ((r-off)%2048 + 2048) % 2048; i < n; i += 2048 {
+					data[i] = fill ^ 1
+					if two && i+2 < n {
+						data[i+2] = fill ^ 2
+					}
+				}
+				s.Files[len(s.Files)-1].Data = data
+			}
+		}
+	}
 	// size boundaries of the transfer: the sender cuts the compressed message into blocks of 125 bytes (other
 	// implementations use up to 256), the LZHUF reader pulls its input in 4096 byte fills. In a fifth of the
 	// messages the content is padded (deterministically, the result is part of the Spec) until the LZHUF
